@@ -213,6 +213,196 @@ std::unique_ptr<PathOwner> submitBasic(int path, dispenso::ThreadPool& pool, int
   return std::unique_ptr<PathOwner>(o.release());
 }
 
+
+// ------------------------------------------------------------------ held singles
+// Single force-queued tasks submitted ONE AT A TIME into a fully parked multi-group pool whose last
+// wake group is small (N = 9, 10, 17 with groups of 8). Every body records its start and then blocks
+// until the harness releases it after the verdict, so each further submission needs one more parked
+// worker to be woken: the workers that are already awake cannot rescue it, and the claim has to
+// find a sleeper in whatever group still has one (round-robin group hint, varied by 0..3 prior
+// shuffle singles).
+namespace {
+
+void heldUnitBody(int i) {
+  g_unitStarted[i].fetch_add(1, std::memory_order_relaxed);
+  g_unitTid[i].store(myTid(), std::memory_order_relaxed);
+  g_unitsTotal.fetch_add(1, std::memory_order_relaxed);
+  vrt::progress();
+  while (g_holdFlag.load(std::memory_order_relaxed)) vrt::sleepUs(200); // nanosleep: never a futex wait
+  g_unitsDone.fetch_add(1, std::memory_order_relaxed);
+}
+
+// Number of one-at-a-time submissions the unchanged wake protocol is guaranteed to serve whatever
+// waiter of a group the kernel picks: a wake clears the claimed thread's mask bit and the thread that
+// actually woke clears its own (<= 2 bits per wake), and each prior shuffle single may have left one
+// parked thread with a cleared bit in the group it landed in.
+int safeHeldCount(int N, int singles) {
+  const int groups = (N + 7) / 8;
+  int total = 0;
+  for (int g = 0; g < groups; ++g) {
+    int sz = std::min(8, N - 8 * g);
+    int landed = 0;
+    for (int j = 0; j < singles; ++j) landed += (j % groups) == g ? 1 : 0;
+    int bits = sz - std::min(landed, sz - 1);
+    total += (bits + 1) / 2;
+  }
+  return std::min(total, 6);
+}
+
+const int kHeldPaths[4] = {kPoolScheduleFq, kTsScheduleFq, kCtsHeavyScheduleFq, kCtsLightSchedule};
+
+void runHeldCase(long idx, long local) {
+  static const int Ns[3] = {9, 10, 17};
+  const int path = kHeldPaths[local % 4];
+  const int N = Ns[(local / 4) % 3];
+  const int singles = static_cast<int>((local / 12) % 4);
+  const int count = safeHeldCount(N, singles);
+  const char* pname = path == kCtsLightSchedule ? "cts-light-schedule-fq" : kPathNames[path];
+  J spec = J().kv("family", "held-singles").kv("path", pname).kv("N", N).kv("shuffleSingles", singles).kv("submissions", count)
+               .kv("rep", local / 48);
+  vrt::caseBegin(idx, std::string(pname) + "/held-singles/N" + std::to_string(N), spec);
+  vrt::watchdogArm();
+  resetUnits();
+  vrt::hooksReset();
+  vrt::futexReset();
+  g_dwellUs.store(0, std::memory_order_relaxed);
+
+  const std::vector<int> tidsBefore = listTids();
+  dispenso::ThreadPool* pool = new dispenso::ThreadPool(static_cast<size_t>(N));
+  pool->setSignalingWake(true, std::chrono::microseconds(kHourUs));
+  std::vector<int> workers;
+  for (int attempt = 0; attempt < 2000; ++attempt) {
+    workers.clear();
+    for (int t : minusTids(listTids(), tidsBefore)) {
+      if (tidLive(t)) workers.push_back(t);
+    }
+    if (static_cast<int>(workers.size()) == N) break;
+    vrt::progress();
+    vrt::sleepUs(200);
+  }
+  std::string why;
+  bool ok = static_cast<int>(workers.size()) == N;
+  if (!ok) why = "thread census does not show exactly N workers";
+  ok = ok && waitAllParked(*pool, workers);
+  for (int j = 0; ok && j < singles; ++j) {
+    static std::atomic<int> done{0};
+    done.store(0, std::memory_order_relaxed);
+    pool->schedule(
+        []() {
+          vrt::progress();
+          done.store(1, std::memory_order_relaxed);
+        },
+        dispenso::ForceQueuingTag());
+    waitFlagOrStranded(done, *pool, workers);
+    if (!done.load(std::memory_order_relaxed)) {
+      ok = false;
+      why = "shuffle task not started (that path is judged by its own single-task cases)";
+      break;
+    }
+    ok = waitAllParked(*pool, workers);
+  }
+  if (!ok && why.empty()) why = "pool never reached the all-parked state";
+
+  std::unique_ptr<dispenso::TaskSet> ts;
+  std::unique_ptr<dispenso::ConcurrentTaskSet> cts;
+  int started = 0;
+  bool stranded = false, guard = false;
+  std::vector<int> ranks;
+  if (ok) {
+    if (path == kTsScheduleFq) ts.reset(new dispenso::TaskSet(*pool));
+    if (path == kCtsHeavyScheduleFq) cts.reset(new dispenso::ConcurrentTaskSet(*pool, dispenso::TaskCost::kHeavy));
+    if (path == kCtsLightSchedule) cts.reset(new dispenso::ConcurrentTaskSet(*pool, dispenso::TaskCost::kLightweight));
+    g_holdFlag.store(1, std::memory_order_relaxed);
+    for (int i = 0; i < count && !stranded && !guard; ++i) {
+      auto f = [i, p = payload(i)]() { heldUnitBody(i); };
+      if (path == kPoolScheduleFq) pool->schedule(std::move(f), dispenso::ForceQueuingTag());
+      else if (path == kTsScheduleFq) ts->schedule(std::move(f), dispenso::ForceQueuingTag());
+      else cts->schedule(std::move(f), dispenso::ForceQueuingTag());
+      // wait for unit i: started, or the stranded state
+      const double t0 = vrt::nowSeconds();
+      double nextSample = t0 + 0.02;
+      int samples = 0;
+      uint64_t lastExits = ~0ull;
+      long spins = 0;
+      while (!g_unitStarted[i].load(std::memory_order_relaxed)) {
+        double now = vrt::nowSeconds();
+        if (now >= nextSample) {
+          nextSample = now + 0.1;
+          // workers that are not blocked inside a held body
+          std::vector<int> freeWorkers;
+          for (int t : workers) {
+            bool held = false;
+            for (int u = 0; u < i; ++u) held = held || g_unitTid[u].load(std::memory_order_relaxed) == t;
+            if (!held) freeWorkers.push_back(t);
+          }
+          const int nFree = static_cast<int>(freeWorkers.size());
+          vrt::FutexStats fs = vrt::futexStats();
+          bool asleep = allAsleep(freeWorkers);
+          if (!asleep) vrt::progress();
+          bool c = asleep && nFree == N - i && fs.inTimedWaitNow == nFree && pool->verifNumSleeping() == nFree &&
+              !g_unitStarted[i].load(std::memory_order_relaxed);
+          if (c && (samples == 0 || fs.waitExits == lastExits)) ++samples;
+          else samples = c ? 1 : 0;
+          lastExits = fs.waitExits;
+          if (samples >= 3) {
+            stranded = true;
+            break;
+          }
+        }
+        if (now - t0 > 60.0) {
+          guard = true;
+          break;
+        }
+        if (++spins < 200) vrt::spinFor(20);
+        else vrt::sleepUs(200);
+      }
+      if (stranded || guard) break;
+      ++started;
+      int t = g_unitTid[i].load(std::memory_order_relaxed);
+      auto it = std::lower_bound(workers.begin(), workers.end(), t);
+      ranks.push_back((it != workers.end() && *it == t) ? static_cast<int>(it - workers.begin()) : -1);
+    }
+    if (stranded) {
+      vrt::violation(
+          "single task " + std::to_string(started) + " (0-based) of a one-at-a-time series is not started: the " + std::to_string(started) +
+              " workers woken so far are blocked inside their bodies and all other " + std::to_string(N - started) +
+              " workers are parked in timed futex waits with their sleep flags set (only the sleep backstop could start it)",
+          J().raw("spec", spec.str()).arr("ranksThatRan", ranks).kv("pool", poolJson(*pool))
+              .kv("inTimedWait", vrt::futexStats().inTimedWaitNow));
+    } else if (guard) {
+      vrt::inconclusive("60 s guard expired without a stranded state");
+    }
+    // ---- cleanup after the verdict: release the bodies, get a stranded unit executed, quiesce
+    g_holdFlag.store(0, std::memory_order_relaxed);
+    const long submitted = started + ((stranded || guard) ? 1 : 0);
+    for (int it = 0; it < 5000 && g_unitsTotal.load(std::memory_order_relaxed) < submitted; ++it) {
+      if (ts) ts->tryWait(64);
+      if (cts) cts->tryWait(64);
+      if (g_unitsTotal.load(std::memory_order_relaxed) >= submitted) break;
+      pool->schedule([]() { vrt::progress(); }, dispenso::ForceQueuingTag());
+      vrt::progress();
+      vrt::sleepUs(500);
+    }
+    if (ts) ts->wait();
+    if (cts) cts->wait();
+    ts.reset();
+    cts.reset();
+    waitAllParked(*pool, workers, 10.0);
+  } else {
+    vrt::inconclusive(why);
+  }
+  g_holdFlag.store(0, std::memory_order_relaxed);
+  delete pool;
+  vrt::watchdogDisarm();
+  std::vector<std::string> cls{"held-singles", "held-singles:small-last-group", std::string("path:") + kPathNames[path], "multi-group",
+                               "held-singles:hint-start-g" + std::to_string(singles % ((N + 7) / 8))};
+  if (stranded) cls.push_back("stranded");
+  // non-trivial: at least two bodies were held at once, i.e. a wake had to find a second sleeper
+  vrt::caseEnd(J().kv("submissions", count).kv("started", started).arr("ranks", ranks), (ok && started >= 2) || stranded ? spec.str() : "", cls);
+}
+
+} // namespace
+
 void runC07() {
   const bool th = vrt::thorough();
   std::vector<int> Ns;
@@ -418,6 +608,13 @@ void runC07() {
     if (s.N >= 9) cls.push_back("multi-group");
     if (s.perturb) cls.push_back("perturbed");
     vrt::caseEnd(stats, nonTrivial ? s.json().str() : "", cls);
+  }
+  // held-singles family (indices after the grid)
+  const long nHeld = vrt::g_args.getInt("held", th ? 480 : 60);
+  for (long local = 0; local < nHeld; ++local) {
+    long idx = n + local;
+    if (!vrt::selected(idx)) continue;
+    runHeldCase(idx, local);
   }
 }
 
